@@ -107,7 +107,10 @@ type History struct {
 	VersionTime  *int64
 	// VersionTimeOffset (seconds east of UTC) only changes how the same instant is written
 	VersionTimeOffset int
-	Note              string
+	// VersionTimeFrac is a fractional-second suffix (".5", ".999999999"): the instant lies inside the second
+	// VersionTime, and "anchored at or before T" is decided by whole seconds
+	VersionTimeFrac string
+	Note            string
 }
 
 type sliceStore struct {
@@ -130,6 +133,9 @@ func (h *History) VersionTimeText() string {
 	t := time.Unix(*h.VersionTime, 0).UTC()
 	if h.VersionTimeOffset != 0 {
 		t = t.In(time.FixedZone("", h.VersionTimeOffset))
+	}
+	if h.VersionTimeFrac != "" {
+		return t.Format("2006-01-02T15:04:05") + h.VersionTimeFrac + t.Format("Z07:00")
 	}
 	return t.Format(time.RFC3339)
 }
